@@ -72,7 +72,7 @@ PROPS = {
         "family": ("c04", {"quick": [], "thorough": []}),
         "explanation": "Verus proves (a) DateRange::contains is exactly start <= d < end with open ends as infinity, adjacent windows partition their union and empty windows contain nothing, "
                        "is_bypass/require_recompute choose the stored balance only for an unbounded window without per-posting conversion; (b) every update of the running Balance adds the posting to that "
-                       "account only and never stores a zero-valued commodity; (c) the register's account filter (AccountFilter::is_match; the selection predicate of AccountFilter::new, sliced) lists a posting "
+                       "account only and never stores a zero-valued commodity; (c) the register's account filter (AccountFilter::is_match; AccountFilter::new, whole function: `.filter(..).collect()` into the HashSet rewritten into an insert loop, R35b) lists a posting "
                        "exactly when no account was asked for or its account's name EQUALS the argument, and Ledger::postings applies it to the posting's own account (textual anchor).  (d) Ledger::balance, the whole function (group `query`, rule R30): "
                        "with a window (or --historical) the result is the fold, in file order, of Balance::add_amount over exactly the stored postings of the transactions whose date satisfies contains(), rounded once at the end by Balance::round (proved: every account rounded, none added or dropped); "
                        "without a window the stored whole-history balance is returned as it is; nothing in the ledger is modified.  (e) the data-structure invariant behind 'the two report paths agree': add_transaction moves the running balance, per account and commodity, by exactly the sum of the amounts its stored (register) postings list "
@@ -81,10 +81,10 @@ PROPS = {
                        "is the sum of the listed amounts of the transactions dated in [start, end); reports over adjacent windows add up to the report over their union; with an unbounded window the re-fold, the stored balance and the register total coincide; "
                        "the re-fold never holds a zero total.  NOT decided by proof: the register COMMAND's running total (cli) and rounding interplay beyond 'rounded once at the end'; they are exercised by the c04 family (five ledgers incl. back-dated entries, a declared precision, "
                        "assignments, and account names that are prefixes of one another x 100 [start, end) windows against the sum of the listed postings; Ledger::postings per account against the whole-history report).",
-        "units_doc": ["core/src/report/query.rs: DateRange::{contains,is_bypass}, BalanceQuery::require_recompute, AccountFilter::is_match, AccountFilter::new (selection predicate, slice)", "core/src/report/balance.rs: Balance::{add_amount, add_posting_amount, round}", "core/src/report/query.rs: Ledger::balance (whole function)",
+        "units_doc": ["core/src/report/query.rs: DateRange::{contains,is_bypass}, BalanceQuery::require_recompute, AccountFilter::is_match, AccountFilter::new (whole function + selection predicate slice), Ledger::postings (whole function)", "core/src/report/balance.rs: Balance::{add_amount, add_posting_amount, round}", "core/src/report/query.rs: Ledger::balance (whole function)",
                       "core/src/report/book_keeping.rs: add_transaction (register-sum postcondition), ProcessAccumulator::{new, process} (invariant), process (anchors)",
                       "lemmas: lemma_fold_is_register_sum, theorem_adjacent_windows_add_up, theorem_whole_history_agrees, theorem_window_report_shows_no_zero_total"],
-        "assumptions": ["assumed: std::borrow::Cow modelled by an enum with the same variants; R30: flat_map / filter_map visit outer then inner elements in order (std definition); R25e: values_mut visits every value once", "assumed L0 model of chrono::NaiveDate: a totally ordered day number (vx/prelude/chrono.rs)", "assumed: Account::as_str is the account's interned name; HashSet::contains (vstd); `.filter(p).collect()` keeps exactly the elements satisfying p (std)", L0_DECIMAL, L0_HANDLES, L0_STD, L1_AMOUNT],
+        "assumptions": ["assumed: std::borrow::Cow modelled by an enum with the same variants; R30: flat_map / filter_map visit outer then inner elements in order (std definition); R25e: values_mut visits every value once", "assumed L0 model of chrono::NaiveDate: a totally ordered day number (vx/prelude/chrono.rs)", "assumed: Account::as_str is the account's interned name; HashSet::{insert, contains, len} (vstd); ReportContext::all_accounts_unsorted yields every known canonical account exactly once (iterator over the intern store)", L0_DECIMAL, L0_HANDLES, L0_STD, L1_AMOUNT],
         "not_decided": ["RegisterCmd running total (cli; family only)", "that `process` feeds every entry to the accumulator and hands its fields over (textual anchors, loader closure outside Verus)"],
     },
     "C05": {
